@@ -40,6 +40,17 @@ func verifHarnessC20() {
 			verifReach("big-put-after-backup")
 		}
 	}
+	if verifParam("reuse") == 1 {
+		// the SAME directory is backed up into again, after further history that may include an adopted
+		// merge (files shrink, placeholder files appear): the copy is the state at the LATEST Backup
+		for step := 0; step < verifParam("k2"); step++ {
+			src = vStep(src, opts, kp, m, vOpsFromMask(verifParam("ops2")), "C20.between")
+		}
+		verifAssert(src.Backup(dir2) == nil, "C20.repeated-backup-err")
+		mB = m.clone()
+		verifAssert(!verifFSExists(dir2+"/.lock"), "C20.copy-carries-lock")
+		verifReach("backup-into-used-directory")
+	}
 	if verifParam("twice") == 1 {
 		dir3 := verifDir("copy2")
 		verifAssert(src.Backup(dir3) == nil, "C20.second-backup-err")
